@@ -2,7 +2,7 @@
 from vlib.bitgen import hx, nal_src, chunkings, escape
 
 ID = "C10"
-RULE = ("every payload type 0..299 once; message lists with types from {0,1,4,5,127,128,129,254,255,256,509,510,511,765,65535,...} and payload lengths from "
+RULE = ("every payload type 0..299 once; message lists of 255..1024 (thorough 65537) messages around the multiples of 256; message lists with types from {0,1,4,5,127,128,129,254,255,256,509,510,511,765,65535,...} and payload lengths from "
         "{0,1,2,254,255,256,509,510,511,random<=700}, payload bytes incl. zero runs that need emulation prevention, coded "
         "with 0xFF extension bytes + trailing bits; read from contiguous RBSP, from escaped NALs in random chunkings, "
         "complete and incomplete; every truncation of some; payloads of 2^k-1..2^k+4000 bytes (k to 16, thorough 20) complete and cut short "
@@ -50,6 +50,15 @@ def gen(tier, rng):
             for k in range(1, len(nal) + 1):
                 cases.append("sei %s 2" % nal_src([nal[:k]], False))
                 cases.append("sei %s 2" % nal_src([nal[:k]], True))
+    # long message lists: counts around the powers of 256 (a narrow message counter wraps there), tiny payloads
+    for cnt in ([255, 256, 257, 511, 512, 513, 768, 1024] if tier == "quick" else [255, 256, 257, 511, 512, 513, 768, 1024, 4096, 65535, 65536, 65537]):
+        msgs = [(rng.choice([0, 1, 5, 128, 200]), bytes([1 + (j % 250)] * rng.choice([0, 1, 2]))) for j in range(cnt)]
+        rbsp = enc_msgs(msgs)
+        cases.append("sei raw:%s 3" % hx(rbsp))
+        if cnt <= 1024:
+            nal = bytes([0x06]) + escape(rbsp)
+            cases.append("sei %s 2" % nal_src(chunkings(rng, nal, 1)[0], True))
+            cases.append("sei %s 2" % nal_src(chunkings(rng, nal[:len(nal) - 1], 1)[0], False))
     # every payload type 0..300 once (the type-name table of HeaderType::from_id), in groups of 10
     for base in range(0, 300, 10):
         msgs = [(t, bytes([t & 0x7f, 1])) for t in range(base, base + 10)]
